@@ -35,6 +35,29 @@ def cases(draw, tier="quick"):
         spec = draw(mdp_specs("dproper", min_states=2, max_states=2, max_actions=2, uniform_actions=True, gammas=[0.5, 0.8],
                               absorbing_kinds=("n", "abs"), allow_explicit=False))
         m_, eps_ = draw(st.sampled_from([256, 257, 300])), draw(st.sampled_from([700, 1000]))
+    elif draw(st.integers(0, 7)) == 0:
+        # gadget: the empirical model of one pair partly *coincides with its optimistic prior* - a likely self-loop whose
+        # m sampled rewards add up to rmax (or whose mean is rmax), in a short run where it is often the last pair to
+        # become known. Parametrised by the host problem, the pair, the threshold, the loop weight and the reward unit.
+        m_, eps_ = draw(st.integers(2, 4)), draw(st.integers(1, 3))
+        k = draw(st.sampled_from([1, 2, 3]))
+        top = m_ * k
+        r_self = draw(st.sampled_from([k, k, top]))
+        cand = [s for s in range(spec["n"]) if not spec["absorbing"][s] and any(o[0] != s and o[1] > 0 for _, outs in spec["trans"][s] for o in outs)]
+        starts = [s for s, w in spec["p0"] if w > 0 and s in cand]
+        if cand:
+            s0 = draw(st.sampled_from(starts or cand))
+            for s in range(spec["n"]):
+                for _, outs in spec["trans"][s]:
+                    for o in outs:
+                        o[2] = min(o[2], top)
+            rows = spec["trans"][s0]
+            outs = rows[draw(st.integers(0, len(rows) - 1))][1]
+            outs[:] = [o for o in outs if o[0] != s0] + [[s0, draw(st.sampled_from([6, 12, 40])), r_self]]
+            other = [o for _, oo in rows for o in oo if o[0] != s0 and o[1] > 0]
+            other[draw(st.integers(0, len(other) - 1))][2] = top          # some transition pays rmax = m * k
+            if not starts:
+                spec["p0"] = [[s0, 1]]
     return {"mdp": spec, "m": m_, "episodes": eps_,
             "seed": draw(st.one_of(st.sampled_from([0, 1, 2 ** 31 - 1]), st.integers(0, 10 ** 6))),
             "diff": draw(st.sampled_from([1e-3, 1e-6])),
